@@ -49,7 +49,11 @@ def report_obligations(ctx, fi, ev):
                     or any(isinstance(t, ast.Compare) and isinstance(t.ops[0], ast.Eq) and isinstance(t.comparators[0], ast.Constant) and t.comparators[0].value == "auto" and p for t, p in g):
                 tag = "default"
         n += 1
-        ctx.decide(ok, "DIM", f"{fi.qualname}:{what}<-{tag}", (fi, where),
+        key = f"{fi.qualname}:{what}<-{tag}"
+        if not ok and d is not None and d.stmt is not None and getattr(d.stmt, "value", None) is not None:
+            # a finding is identified by *what* is used as the width, so that another wrong default at the same place is a new finding
+            key += f"[{U(d.stmt.value)}]"
+        ctx.decide(ok, "DIM", key, (fi, where),
                    f"{detail}: smoothing width and wave numbers share one unit",
                    f"{detail}: a quantity with the wrong unit is used as the smoothing width on the wave-number axis, so the result does not scale with the grid")
     return n
@@ -196,7 +200,23 @@ def check_sf_structure(ctx):
         ctx.decide(okk, "INDEXAGREE", SF + ":magnitude", (fi, km[0]) if km else fi, "|k| = √(Σ_i k_i²) on the full mode grid, zero mode dropped like in the spectrum ([1:])",
                    "the wave-number magnitudes are not sqrt(outer sum of squared components).flat[1:] — modes and wave numbers would be paired wrongly")
     else:
-        ctx.undecided("INDEXAGREE", SF + ":wave-vectors", fi, "wave-vector comprehension not found")
+        # hand-written DFT frequencies: `m = arange(n); m[m >= T] -= n` must fold at T = ceil(n/2) (numpy's fftfreq convention:
+        # for odd n the mode (n−1)/2 is positive); folding at n // 2 gives that mode the wave number of −(n+1)/2
+        fold = None
+        for s_ in fv.statements():
+            if isinstance(s_, ast.AugAssign) and isinstance(s_.op, ast.Sub) and isinstance(s_.target, ast.Subscript) and isinstance(s_.target.slice, ast.Compare) \
+                    and len(s_.target.slice.ops) == 1 and isinstance(s_.target.slice.ops[0], (ast.GtE, ast.Gt)) and U(s_.target.slice.left) == U(s_.target.value):
+                fold = s_
+        if fold is not None and not any("fftfreq" in U(x_) for x_ in fv.statements()):
+            n_ = U(fold.value)
+            t_ = U(fold.target.slice.comparators[0]).replace(" ", "")
+            strict = isinstance(fold.target.slice.ops[0], ast.Gt)
+            good = {f"({n_}+1)//2", f"-(-{n_}//2)", f"{n_}-{n_}//2", f"(1+{n_})//2"} if not strict else {f"({n_}-1)//2", f"({n_}+1)//2-1"}
+            ctx.decide(t_ in good, "INDEXAGREE", SF + ":wave-vectors", (fi, fold),
+                       "hand-written mode numbers fold at ceil(n/2), like the discrete Fourier frequencies",
+                       f"`{U(fold)}` folds the mode numbers at `{t_}`: for an odd number of cells the mode (n−1)/2 becomes −(n+1)/2, so the wave numbers are not the discrete Fourier wave numbers of the grid (±m get different |k|)")
+        else:
+            ctx.undecided("INDEXAGREE", SF + ":wave-vectors", fi, "wave-vector comprehension not found")
     # ---- SMOOTHIN: the smoother interpolates exactly the raw spectrum (non-zero modes only), whatever the other options are
     sm = [c for c in fv.calls() if (fv.callee(c) or U(c.func)).split(".")[-1] == "SmoothData1D"]
     if sm and len(comps) == 1 and len(cand) == 1 and len(km) == 1:
@@ -219,6 +239,23 @@ def check_sf_structure(ctx):
                    (bad[1] if bad else "") + ": the smoothed values must be computed from the raw non-zero-mode spectrum only; add_zero may only prepend (0, 1) to the result")
     else:
         ctx.undecided("SMOOTHIN", SF + ":smoother", fi, "SmoothData1D call or raw spectrum definitions not recognised")
+    # ---- PERMINV: the flattened per-mode arrays are used only through order-free reductions (max, sum …) and the common [1:]
+    # cut: an individual element such as k_mag[0] is "the first mode in C order" and changes when the axes are permuted
+    if len(km) == 1 and len(cand) == 1:
+        per_mode = {U(km[0].targets[0]), U(cand[0].targets[0])}
+        picked = []
+        for s_ in fv.statements():
+            if s_ is km[0] or s_ is cand[0]:
+                continue
+            for n_ in walk_no_nested(s_) if not isinstance(s_, (ast.FunctionDef, ast.ClassDef)) else []:
+                if isinstance(n_, ast.Subscript) and isinstance(n_.ctx, ast.Load) and isinstance(n_.value, ast.Name) and n_.value.id in per_mode \
+                        and isinstance(n_.slice, (ast.Constant, ast.UnaryOp)) and not isinstance(n_.slice, ast.Slice):
+                    # only before the arrays are replaced by the requested / smoothed values
+                    if all(d_.stmt in (km[0], cand[0]) for d_ in fv.defs_reaching(n_.value.id, s_) if d_.stmt is not None):
+                        picked.append((s_, n_))
+        ctx.decide(not picked, "PERMINV", SF + ":mode-order", (fi, picked[0][0]) if picked else fi, "no single element of the flattened mode arrays is singled out",
+                   f"`{U(picked[0][1]) if picked else ''}` picks one element of the flattened spectrum: which mode that is depends on the order of the axes (for unequal box lengths "
+                   "the first non-zero mode is 2π/L of the *last* axis), so permuting the axes together with the grid changes the result")
     # ---- PASS: requested wave numbers are returned as given
     wn = fi.params[2] if len(fi.params) > 2 else "wave_numbers"
     asg = [s for s in fv.statements() if isinstance(s, ast.Assign) and U(s.value) in (f"np.array({wn})", f"np.asarray({wn})", f"np.asarray({wn}, dtype=float)", f"np.array({wn}, dtype=float)")]
